@@ -5,6 +5,7 @@
     cqeval mixed|auto <circuit>   -> ok cq <cqty> <cqty> <n> <entries>
                                    | ok tensor <dims> <dims> <n> <entries> | err <class>
     cqdouble <circuit>            -> ok cq …   (the doubled map of the pure evaluation)
+    cqsplit <circuit>             -> ok cq …   (classical part ⊗ doubled quantum part, Model/CQSplit)
     cqismixed <circuit>           -> ok 0|1
     cqcounts <circuit>            -> ok <n> (<index> <real part>)*        (get_counts)
     cqmeasure 0|1 <circuit>       -> ok <n> <entries>                      (measure(mixed=…))
@@ -16,6 +17,7 @@
 -/
 import Driver.Codec
 import Model.CQ
+import Model.CQSplit
 
 namespace DV.CQCmd
 open DV DV.Codec DV.CQ
@@ -148,6 +150,7 @@ def handle (cmd : String) (rest : List String) : Option String :=
     | _ => some "bad cqeval mode"
   | "cqdouble" => some <| run circuit rest fun c =>
       "ok cq " ++ pCQ (CQMap.pure (dims c.dom) (dims c.cod) c.evalPure)
+  | "cqsplit" => some <| run circuit rest fun c => "ok cq " ++ pCQ c.evalSplit
   | "cqismixed" => some <| run circuit rest fun c => if c.isMixed then "ok 1" else "ok 0"
   | "cqcounts" => some <| run circuit rest fun c =>
       answer (pList fun (p : Nat × D8) => s!"{p.1} {p.2}") c.getCounts
